@@ -116,7 +116,7 @@ static void run_kdq3(const Case& c) {
 
 // depth ranges: building a chain costs n^2/2 descent steps (0.3 s for 12000 entries under ASan, 0.5 s for 20000 without)
 #ifdef C13_FAST
-static const uint64_t kChainFixed = 24000, kChainMinQuick = 10000, kChainMaxQuick = 40000, kChainMaxThorough = 100000;
+static const uint64_t kChainFixed = 24000, kChainMinQuick = 10000, kChainMaxQuick = 40000, kChainMaxThorough = 80000;
 #else
 static const uint64_t kChainFixed = 12000, kChainMinQuick = 6000, kChainMaxQuick = 16000, kChainMaxThorough = 30000;
 #endif
